@@ -83,18 +83,29 @@ func FrameOf(v2 bool, seq, sys, comp byte, m message.Message, signKey []byte, li
 	return f.Bytes()
 }
 
-// ParseWire parses everything written to a fake transport: every Write call must carry exactly
-// one whole frame. Returns the frames or a problem.
+// ParseWire parses everything written to a fake transport: the concatenated output must be a
+// sequence of whole frames, nothing interleaved or left over (how many Write calls a frame
+// takes is not prescribed). Returns the frames or a problem.
 func ParseWire(writes [][]byte) ([]*ref.Frame, string) {
+	var all []byte
+	for _, w := range writes {
+		all = append(all, w...)
+	}
 	var out []*ref.Frame
-	for i, w := range writes {
-		it, ok := ref.ParseOne(w)
-		if !ok || it.Kind != ref.KindFrame || it.End != len(w) {
-			return out, fmt.Sprintf("transport write %d does not carry exactly one whole frame: % x", i, w)
+	for _, it := range ref.ParseStream(all) {
+		if it.Kind != ref.KindFrame {
+			return out, fmt.Sprintf("transport output is not a sequence of whole frames: at offset %d: % x", it.Start, all[it.Start:minInt(len(all), it.Start+40)])
 		}
 		out = append(out, it.Frame)
 	}
 	return out, ""
+}
+
+func minInt(a, b int) int {
+	if a < b {
+		return a
+	}
+	return b
 }
 
 // CheckOriginated verifies frames originated by the node on one link: identity, version,
@@ -248,6 +259,10 @@ func (s *DialScript) Install() {
 		i := s.next
 		s.next++
 		s.Attempts = append(s.Attempts, time.Duration(vmc.NowNS()))
+		if err := ctx.Err(); err != nil {
+			// a real dialer fails at once when its context has already ended
+			return nil, err
+		}
 		if s.Pending[i] {
 			ctx.Done().Recv()
 			return nil, ctx.Err()
